@@ -82,6 +82,11 @@ def check(chk, repo):
                 if dom == ("call", ("builtin", "enumerate"), (("param", "X_unlabeled"),), ()):
                     okn = okn and feats in (("iterproj", dom, li.lid, (1,)),
                                             ("idx", ("param", "X_unlabeled"), ("iterproj", dom, li.lid, (0,))))
+                elif dom[0] == "call" and dom[1] == ("builtin", "enumerate") and len(dom[2]) == 1 and not dom[3] \
+                        and dom[2][0][0] == "call" and dom[2][0][1] == ("builtin", "zip") and dom[2][0][2][:1] == (("param", "X_unlabeled"),):
+                    # enumerate(zip(X_unlabeled, <labels>)): the row is the first component
+                    okn = okn and feats in (("iterproj", dom, li.lid, (1, 0)),
+                                            ("idx", ("param", "X_unlabeled"), ("iterproj", dom, li.lid, (0,))))
                 elif dom == ("param", "X_unlabeled"):
                     okn = okn and feats == ("iter", dom, li.lid)
                 else:
